@@ -537,6 +537,11 @@ pub struct IExtra<'a> {
     pub max_out: usize,
 }
 
+pub const MODE_NAMES: [&str; 32] = [
+    "resume_Head", "resume_Flags", "resume_Time", "resume_Os", "resume_ExLen", "resume_Extra", "resume_Name", "resume_Comment", "resume_HCrc", "resume_Sync", "resume_Mem", "resume_Length", "resume_Type", "resume_TypeDo", "resume_Stored", "resume_CopyBlock",
+    "resume_Check", "resume_Len_", "resume_Len", "resume_Lit", "resume_LenExt", "resume_Dist", "resume_DistExt", "resume_Match", "resume_Table", "resume_LenLens", "resume_CodeLens", "resume_DictId", "resume_Dict", "resume_Done", "resume_Bad", "resume_?",
+];
+
 pub fn istate_hash(s: &[u32; 8]) -> u64 {
     let bucket = |x: u32, lo: u32, hi: u32| if x == 0 { 0 } else if x < lo { 1 } else if x < hi { 2 } else { 3 };
     hash_u32s(&[s[0], s[1], s[2], s[3], bucket(s[4], 258, 32768), bucket(s[6], 3, 258)])
@@ -624,6 +629,7 @@ pub fn run_inflate<Zx: Z>(wb: i32, input: &[u8], sched: &ISched, env: &Env, ex: 
                     state_changed = st_before.map_or(true, |b| b != st);
                     if let Some(c) = rec.as_deref_mut() {
                         let h = istate_hash(&st);
+                        c.count(MODE_NAMES[(st[0] as usize).min(31)], 1);
                         c.state(h);
                         if let Some(p) = prev_state {
                             c.trans(p, h);
